@@ -386,7 +386,8 @@ class Model:
                 r = self.ev(e[1], p, env, lvl, noskip)
                 if r is FAIL:
                     break
-                if r[1] <= p:
+                if r[1] < p or (r[1] == p and n is None):
+                    # (with an upper bound the repetition terminates whatever the element consumes)
                     raise IllFormed('repetition without progress')
                 out.append(r[0])
                 p = r[1]
